@@ -54,6 +54,88 @@ theorem panic_sites_are_the_reviewed_ones :
     read, modelled and assigned. -/
 theorem every_function_is_pinned : CV.Facts.logicUnpinned = [] ∧ CV.Facts.logicMissing = [] := by decide
 
+/-- (facts, regenerated from the source on every run) **Every index and slice expression is a reviewed one.**  An index
+    past the end of a slice is the other syntactic way to panic.  The sites on maps (`m[k]`, `typesMap[..]`,
+    `mergedMap[key]`, `v.Fields[..]`, …) cannot panic; the ones on slices, arrays and strings are each guarded:
+    `DropIndex` - `[i]` under the loop bound, `[j]`, `[0]`, `[1:]` after `j >= 0` (the slice then has an element);
+    `FindFirst` - `docs[0]` under `len(docs) > 0`; `createIndex`, `asSlice`, `compareSlices`, `compareObjects`,
+    `renameValue`, `replaceTimes`, `removeLocalizedTimes` - loop indices under the loop bound (both lengths for the
+    two-sided ones); `lookupField` - `strings.Split` never returns an empty slice; `processStructTag` - `tags[0]` for the
+    same reason, `tags[1]` under `len(tags) > 1`; `MarshalMsgpack` - `b[0]`, `b[13]`, `b[14]` on the 15 bytes
+    `time.MarshalBinary` always returns; `getIndexQueries` - `selectedFields[0]` after the `len == 0` return;
+    `tryToSelectIndex` - `indexQueries[0]` under `len == 1`, `SortOptions()[0]` under `len == 1`; `sortNode.Finish`,
+    `MapKeys` - indices handed in by `sort`; `extractDocId` - after its explicit length test (`extractDocId_never_panics`).
+    A new index or slice expression breaks this theorem until it has been reviewed. -/
+theorem index_sites_are_the_reviewed_ones : CV.Facts.indexSites = [
+  "db.go DB.DropIndex: meta.Indexes[0]", 
+  "db.go DB.DropIndex: meta.Indexes[1:]", 
+  "db.go DB.DropIndex: meta.Indexes[i]", 
+  "db.go DB.DropIndex: meta.Indexes[j]", 
+  "db.go DB.DropIndex: meta.Indexes[j]", 
+  "db.go DB.FindFirst: docs[0]", 
+  "db.go DB.createIndex: meta.Indexes[i]", 
+  "document/document.go Document.Set: m[fieldName]", 
+  "document/document.go lookupField: currMap[field]", 
+  "document/document.go lookupField: currMap[field]", 
+  "document/document.go lookupField: fields[len(fields)-1]", 
+  "index/range_index.go extractDocId: key[:len(key)-36]", 
+  "index/range_index.go extractDocId: key[len(key)-36:]", 
+  "internal/code.go orderedCodeObject: o[key]", 
+  "internal/compare.go TypeId: typesMap[TypeName(v)]", 
+  "internal/compare.go asSlice: elems[i]", 
+  "internal/compare.go compareObjects: m1Keys[i]", 
+  "internal/compare.go compareObjects: m1[k1]", 
+  "internal/compare.go compareObjects: m2Keys[i]", 
+  "internal/compare.go compareObjects: m2[k2]", 
+  "internal/compare.go compareSlices: s1[i]", 
+  "internal/compare.go compareSlices: s2[i]", 
+  "internal/encoding.go createRenameMap: renameMap[renameFrom]", 
+  "internal/encoding.go normalizeMap: m[key.String()]", 
+  "internal/encoding.go normalizeStruct: m[fieldName]", 
+  "internal/encoding.go normalizeStruct: m[fieldName]", 
+  "internal/encoding.go normalizeStruct: m[k]", 
+  "internal/encoding.go processStructTag: tags[0]", 
+  "internal/encoding.go processStructTag: tags[1]", 
+  "internal/encoding.go rename: m[key]", 
+  "internal/encoding.go rename: m[renamedFieldName]", 
+  "internal/encoding.go rename: renameMap[key]", 
+  "internal/encoding.go renameMapKeys: renamed[key]", 
+  "internal/encoding.go renameMapKeys: renamed[key]", 
+  "internal/encoding.go renameMapKeys: renamed[sf.Name]", 
+  "internal/encoding.go renameValue: elems[i]", 
+  "internal/encoding.go renameValue: values[k]", 
+  "internal/time.go LocalizedTime.MarshalMsgpack: b[0]", 
+  "internal/time.go LocalizedTime.MarshalMsgpack: b[13]", 
+  "internal/time.go LocalizedTime.MarshalMsgpack: b[14]", 
+  "internal/time.go removeLocalizedTimes: m[k]", 
+  "internal/time.go removeLocalizedTimes: s[i]", 
+  "internal/time.go replaceTimes: mapCopy[k]", 
+  "internal/time.go replaceTimes: sliceCopy[i]", 
+  "json.go restoreExpiresAt: fields[d.ExpiresAtField]", 
+  "json.go restoreExpiresAt: fields[d.ExpiresAtField]", 
+  "plan.go getIndexQueries: indexesMap[field]", 
+  "plan.go getIndexQueries: indexesMap[idx.Field()]", 
+  "plan.go getIndexQueries: info[idx.Field()]", 
+  "plan.go getIndexQueries: selectedFields[0]", 
+  "plan.go sortNode.Finish: nd.docs[i]", 
+  "plan.go sortNode.Finish: nd.docs[j]", 
+  "plan.go tryToSelectIndex: indexQueries[0]", 
+  "plan.go tryToSelectIndex: q.SortOptions()[0]", 
+  "plan.go tryToSelectIndex: q.SortOptions()[0]", 
+  "plan.go tryToSelectIndex: q.SortOptions()[0]", 
+  "plan.go tryToSelectIndex: q.SortOptions()[0]", 
+  "util/map.go CopyMap: mapCopy[k]", 
+  "util/map.go CopyMap: mapCopy[k]", 
+  "util/map.go MapKeys: keys[i]", 
+  "util/map.go MapKeys: keys[j]", 
+  "util/map.go StringSliceToSet: set[str]", 
+  "visit.go FieldRangeVisitor.VisitBinaryCriteria: mergedMap[key]", 
+  "visit.go FieldRangeVisitor.VisitBinaryCriteria: mergedMap[key]", 
+  "visit.go FieldRangeVisitor.VisitBinaryCriteria: mergedMap[key]", 
+  "visit.go FieldRangeVisitor.VisitBinaryCriteria: mergedMap[key]", 
+  "visit.go FieldRangeVisitor.VisitUnaryCriteria: v.Fields[c.Field]", 
+  "visit.go IndexSelectVisitor.VisitUnaryCriteria: v.Fields[c.Field]"] := by rfl
+
 variable (likeFn : LikeFn) (fnFam : FnFam)
 
 /-- (model) the sites that used to panic return results or errors: a negated criterion selects no
